@@ -108,7 +108,16 @@ fn variants(r: &mut Rng, t: u64) -> Vec<(String, Option<Value>, Option<Value>, E
     v.push(("exp-past-float".into(), Some(json!((t - 1000 - r.below(100_000)) as f64 + 0.5)), None, Expect::Reject("exp")));
     // an expired token stays rejected whatever nbf says
     v.push(("exp-past-nbf-past".into(), Some(json!(t - 3600)), Some(json!(t - 7200)), Expect::Reject("exp")));
-    // must-accept
+    // must-accept: calendar corner instants in the future as exp (31 Dec / 29 Feb of leap years, the
+    // non-leap century year 2100, the 2^31 and 2^32 second marks) — and in the past as nbf
+    for (i, inst) in [1_861_876_800u64, 1_861_919_999, 1_835_395_200, 1_835_481_599, 1_988_150_400, 4_107_542_400, 4_107_456_000, 4_133_980_799, 2_147_483_647, 2_147_483_648, 4_294_967_295, 4_294_967_296, 1_830_297_600, 1_893_455_999].iter().enumerate() {
+        if *inst > t + 3600 {
+            v.push((format!("exp-calendar-{i}"), Some(json!(inst)), None, Expect::Accept));
+        }
+    }
+    for (i, inst) in [951_782_400u64, 951_868_799, 1_078_012_800, 1_709_251_199, 1_735_689_599, 1_704_067_199, 68_255_999, 946_684_799, 1_582_934_400].iter().enumerate() {
+        v.push((format!("nbf-calendar-{i}"), Some(json!(fut(r))), Some(json!(inst)), Expect::Accept));
+    }
     v.push(("exp-plus-1h".into(), Some(json!(t + 3600)), None, Expect::Accept));
     v.push(("exp-2100".into(), Some(json!(Y2100)), None, Expect::Accept));
     for _ in 0..4 {
